@@ -99,3 +99,57 @@ Proof.
          [101;120;97;109;112;108;101;46;99;111;109].
   vm_compute. split; reflexivity.
 Qed.
+
+(* the pattern loop: a redirect is allowed only if a configured pattern really matched (and every
+   pattern before it was evaluated without error), whenever patterns are configured at all *)
+Lemma eval_patterns_true l : eval_patterns l = Some true ->
+  exists pre post, l = pre ++ PMatch :: post /\ Forall (fun x => x = PNoMatch) pre.
+Proof.
+  induction l as [|x r IH]; cbn [eval_patterns]; [discriminate|].
+  destruct x; intros H.
+  - exists [], r. split; [reflexivity|constructor].
+  - destruct (IH H) as [pre [post [E F]]]. exists (PNoMatch :: pre), post.
+    split; [rewrite E; reflexivity|constructor; [reflexivity|exact F]].
+  - discriminate.
+Qed.
+
+Theorem can_redirect_p_sound domains pats parse :
+  can_redirect_p domains pats parse = Some true ->
+  (exists u, parse = Some u /\ scheme u = https /\ opaque u = false /\ uhost u <> [] /\
+    rawquery u = [] /\ has_dotdot (upath u) = false /\
+    (domains <> [] -> exists d, In d domains /\ dom_spec (hostname u) d)) /\
+  (pats <> [] -> exists pre post, pats = pre ++ PMatch :: post /\ Forall (fun x => x = PNoMatch) pre) /\
+  (domains = [] -> pats <> []).
+Proof.
+  unfold can_redirect_p.
+  destruct (is_nil_l domains && Nat.eqb (length pats) 0) eqn:E0; [discriminate|].
+  destruct (eval_patterns pats) as [re|] eqn:EP; [|discriminate].
+  intros H. injection H as H.
+  destruct (can_redirect_sound _ _ _ _ H) as [u [P [S [O [UH [Q [D [HD [HN HE]]]]]]]]].
+  split; [exists u; repeat (split; [assumption|]); exact HD|].
+  split.
+  - intros NE. apply eval_patterns_true.
+    assert (L : length pats <> 0%nat) by (destruct pats; [contradiction|discriminate]).
+    rewrite (HN L) in EP. exact EP.
+  - intros DE. destruct (HE DE) as [L _]. intro C. subst pats. apply L. reflexivity.
+Qed.
+
+(* an unusable pattern never widens: the decision is an error whatever follows, unless a pattern before it matched *)
+Theorem pattern_error_refuses domains pre post parse :
+  Forall (fun x => x = PNoMatch) pre -> can_redirect_p domains (pre ++ PErr :: post) parse <> Some true.
+Proof.
+  intros F. unfold can_redirect_p.
+  destruct (is_nil_l domains && Nat.eqb (length (pre ++ PErr :: post)) 0); [discriminate|].
+  assert (E : eval_patterns (pre ++ PErr :: post) = None).
+  { induction F as [|x r Hx F IH]; [reflexivity|]. subst x. cbn [app eval_patterns]. exact IH. }
+  rewrite E. discriminate.
+Qed.
+
+(* skipping unusable patterns is NOT the same decision: a client whose only pattern is unusable would fall back to its domains *)
+Theorem skip_errors_refuted : exists domains pats parse,
+  can_redirect_p_skip domains pats parse = Some true /\ can_redirect_p domains pats parse = None.
+Proof.
+  exists [[101;120]], [PErr],
+    (Some {| scheme := https; opaque := false; uhost := [97;46;101;120]; rawquery := []; upath := []; hostname := [97;46;101;120] |}).
+  split; vm_compute; reflexivity.
+Qed.
